@@ -7,8 +7,9 @@
 From Coq Require Import ZArith List Bool Lia Reals.
 From MV Require Import Lib.Rigid Lib.OctZ Lib.ListIdx Model.Level2Model Model.Level2Flat Model.Level2Exec
   Model.CoreNum Model.CoreSpec
-  Gen.GenReduce Proofs.Level2C Proofs.Level2C05 Proofs.Level2C05Gen Proofs.LinearExc.
-From MV Require Model.CoreModel.
+  Gen.GenReduce Gen.GenFlat Proofs.Level2C Proofs.Level2C05 Proofs.Level2C05Gen Proofs.Level2FlatGen Proofs.LinearExc.
+From MV Require Gen.GenCuboid Model.CoreModel Model.WrapModel Proofs.WrapLinear Model.CuboidCore Proofs.CuboidLinear.
+From Coq Require Field_theory.
 Import ListNotations.
 Open Scope nat_scope.
 
@@ -67,6 +68,22 @@ Theorem C05_format_src_inputs : forall (P : Type) (nodes : list (node P)),
   | None => nodes = [] \/ ~ Forall (accepted_node P) nodes
   end.
 Proof. exact format_src_inputs_spec. Qed.
+
+(* the same three functions TRANSLATED from /repo/magpylib/_src/utility.py on this run (Gen/GenFlat.v:
+   statement-by-statement interpretation per kind of object, fail-closed) are the hand model, for every tree *)
+Theorem C05_translated_format_obj_input_is_model : forall (P : Type) (s e : bool) (objs : list (node P)),
+  gen_format_obj_input P s e false objs = map (node_of_item P) (format_obj_input P s e objs).
+Proof. exact gen_format_obj_input_is_model. Qed.
+
+Theorem C05_translated_format_src_inputs_is_model : forall (P : Type) (nodes : list (node P)),
+  gen_format_src_inputs P nodes
+  = option_map (fun r : list (node P) * list (leaf P) => (fst r, map NSrc (snd r))) (format_src_inputs P nodes).
+Proof. exact gen_format_src_inputs_is_model. Qed.
+
+Theorem C05_translated_format_src_inputs_dfs : forall (P : Type) (nodes srcs sl : list (node P)),
+  gen_format_src_inputs P nodes = Some (srcs, sl) ->
+  srcs = nodes /\ sl = map NSrc (flat_map (dfs P) nodes) /\ sl = map NSrc (src_list (map (to_srcin P) nodes)).
+Proof. exact gen_format_src_inputs_dfs. Qed.
 
 (* ---- a Collection is ONE entry, holding the (sensor's view of the) sum over all leaves of its tree *)
 Theorem C05_collection_is_one_entry : forall (P : Type) (F : nat -> P -> V -> V) (g_eqb : G -> G -> bool) (flipx : V -> V),
@@ -151,6 +168,9 @@ Print Assumptions C05_translated_sumup.
 Print Assumptions C05_flatten_dfs.
 Print Assumptions C05_col_len.
 Print Assumptions C05_format_src_inputs.
+Print Assumptions C05_translated_format_obj_input_is_model.
+Print Assumptions C05_translated_format_src_inputs_is_model.
+Print Assumptions C05_translated_format_src_inputs_dfs.
 Print Assumptions C05_collection_is_one_entry.
 Print Assumptions C05_getBH_nodes.
 Print Assumptions C05_entry_is_sum_over_leaves.
@@ -194,6 +214,130 @@ Print Assumptions C05_linear_in_excitation_partial_dipole.
 Print Assumptions C05_linear_in_excitation_partial_sphere.
 Print Assumptions C05_linear_in_excitation_partial_polyline.
 Print Assumptions C05_linear_in_excitation_partial_circle.
+
+(* ---- the BHJM_* wrappers (Model/WrapModel.v, builder C02's line-by-line models, parametric in the core)
+   preserve linearity in the polarization, in ANY field with a sound boolean equality: IF the class's core is
+   linear in the polarization, THEN B, H, J and M of the wrapper are.  The `pol == 0` shortcuts of the real code
+   (cuboid: mask_pol_not_null; cylinder: mask_pol_tv / mask_pol_ax / mask_pol_not_null) only skip zeros.
+   WrapLinear.vlin a b u v = u*a + v*b; cub/sph/trow/tet/mrow/cyl build a row with the given polarization. *)
+Section AnyField.
+Import WrapModel.
+Context {N : NumOps} {T : Tols}.
+Notation FT := (Field_theory.field_theory f0 f1 fadd fmul fsub fopp fdiv finv (@eq F)).
+Notation vlin := WrapLinear.vlin.
+
+Theorem C05_wrapper_linear_cuboid : FT -> (forall x y : F, feqb x y = true -> x = y) ->
+  forall (core : cub_row -> vec) (o d : vec),
+  (forall a b p1 p2, core (WrapLinear.cub o d (vlin a b p1 p2))
+                     = vlin a b (core (WrapLinear.cub o d p1)) (core (WrapLinear.cub o d p2))) ->
+  forall (mu0 : F) (f : fld) (a b : F) (p1 p2 : vec),
+  bhjm_cuboid core mu0 f (WrapLinear.cub o d (vlin a b p1 p2))
+  = vlin a b (bhjm_cuboid core mu0 f (WrapLinear.cub o d p1)) (bhjm_cuboid core mu0 f (WrapLinear.cub o d p2)).
+Proof. exact (@WrapLinear.cuboid_wrapper_linear N T). Qed.
+
+Theorem C05_wrapper_linear_sphere : FT ->
+  forall (o : vec) (rr dd mu0 : F) (f : fld) (a b : F) (p1 p2 : vec),
+  bhjm_sphere mu0 f (WrapLinear.sph o rr dd (vlin a b p1 p2))
+  = vlin a b (bhjm_sphere mu0 f (WrapLinear.sph o rr dd p1)) (bhjm_sphere mu0 f (WrapLinear.sph o rr dd p2)).
+Proof. exact (@WrapLinear.sphere_wrapper_linear N). Qed.
+
+Theorem C05_wrapper_linear_triangle : FT -> forall tricore : tri_row -> vec,
+  (forall ob t a b p1 p2, tricore (WrapLinear.trow ob t (vlin a b p1 p2))
+                          = vlin a b (tricore (WrapLinear.trow ob t p1)) (tricore (WrapLinear.trow ob t p2))) ->
+  forall (mu0 : F) (f : fld) (ob : vec) (t : tri) (a b : F) (p1 p2 : vec),
+  bhjm_triangle tricore mu0 f (WrapLinear.trow ob t (vlin a b p1 p2))
+  = vlin a b (bhjm_triangle tricore mu0 f (WrapLinear.trow ob t p1)) (bhjm_triangle tricore mu0 f (WrapLinear.trow ob t p2)).
+Proof. exact (@WrapLinear.triangle_wrapper_linear N). Qed.
+
+Theorem C05_wrapper_linear_tetrahedron : FT -> forall tricore : tri_row -> vec,
+  (forall ob t a b p1 p2, tricore (WrapLinear.trow ob t (vlin a b p1 p2))
+                          = vlin a b (tricore (WrapLinear.trow ob t p1)) (tricore (WrapLinear.trow ob t p2))) ->
+  forall (mu0 : F) (io : inout) (f : fld) (ob v0 v1 v2 v3 : vec) (a b : F) (p1 p2 : vec),
+  bhjm_tetrahedron tricore mu0 io f (WrapLinear.tet ob v0 v1 v2 v3 (vlin a b p1 p2))
+  = vlin a b (bhjm_tetrahedron tricore mu0 io f (WrapLinear.tet ob v0 v1 v2 v3 p1))
+             (bhjm_tetrahedron tricore mu0 io f (WrapLinear.tet ob v0 v1 v2 v3 p2)).
+Proof. exact (@WrapLinear.tetrahedron_wrapper_linear N). Qed.
+
+Theorem C05_wrapper_linear_trimesh_row : FT -> forall tricore : tri_row -> vec,
+  (forall ob t a b p1 p2, tricore (WrapLinear.trow ob t (vlin a b p1 p2))
+                          = vlin a b (tricore (WrapLinear.trow ob t p1)) (tricore (WrapLinear.trow ob t p2))) ->
+  forall (mesh_inside : list tri -> vec -> bool) (mesh_eqb : list tri -> list tri -> bool) (mu0 : F) (io : inout)
+    (f : fld) (meshes : list (list tri)) (i : nat) (ob : vec) (m : list tri) (a b : F) (p1 p2 : vec),
+  bhjm_trimesh_row tricore mesh_inside mesh_eqb mu0 io f meshes (i, WrapLinear.mrow ob m (vlin a b p1 p2))
+  = vlin a b (bhjm_trimesh_row tricore mesh_inside mesh_eqb mu0 io f meshes (i, WrapLinear.mrow ob m p1))
+             (bhjm_trimesh_row tricore mesh_inside mesh_eqb mu0 io f meshes (i, WrapLinear.mrow ob m p2)).
+Proof. exact (@WrapLinear.trimesh_row_wrapper_linear N). Qed.
+
+(* CylinderSegment: the masks read geometry only; the core (J enters through its angles) stays opaque:
+   conditional on the core being linear on three rows of equal geometry *)
+Theorem C05_wrapper_linear_segment_row : FT ->
+  forall (segcore : seg_row -> vec) (mu0 : F) (f : fld) (any_off : bool) (r12 r1 r2 : seg_row) (a b : F),
+  WrapLinear.seg_geom_eq r12 r1 -> WrapLinear.seg_geom_eq r2 r1 ->
+  cs_pol r12 = vlin a b (cs_pol r1) (cs_pol r2) ->
+  segcore r12 = vlin a b (segcore r1) (segcore r2) ->
+  bhjm_seg_row segcore mu0 f any_off r12
+  = vlin a b (bhjm_seg_row segcore mu0 f any_off r1) (bhjm_seg_row segcore mu0 f any_off r2).
+Proof. exact (@WrapLinear.segment_row_wrapper_linear N T). Qed.
+
+(* Cylinder, _partial: purely axial polarization only (the transverse part enters as
+   tvcore(geometry, phi - theta) * |J_xy| with theta, |J_xy| computed before the wrapper) *)
+Theorem C05_wrapper_linear_cylinder_axial_partial : FT -> (forall x y : F, feqb x y = true -> x = y) ->
+  forall (tvcore axcore : F -> F -> F -> cyl_row -> vec) (g_r g_c g_s g_z g_d g_h g_dphi : F),
+  (forall z0 rr z p pxy p' pxy',
+     axcore z0 rr z (WrapLinear.cyl g_r g_c g_s g_z g_d g_h g_dphi p pxy)
+     = axcore z0 rr z (WrapLinear.cyl g_r g_c g_s g_z g_d g_h g_dphi p' pxy')) ->
+  forall (mu0 : F) (f : fld) (a b z1 z2 : F),
+  bhjm_cylinder tvcore axcore mu0 f
+    (WrapLinear.cyl g_r g_c g_s g_z g_d g_h g_dphi (f0, f0, fadd (fmul a z1) (fmul b z2)) f0)
+  = vlin a b (bhjm_cylinder tvcore axcore mu0 f (WrapLinear.cyl g_r g_c g_s g_z g_d g_h g_dphi (f0, f0, z1) f0))
+             (bhjm_cylinder tvcore axcore mu0 f (WrapLinear.cyl g_r g_c g_s g_z g_d g_h g_dphi (f0, f0, z2) f0)).
+Proof. exact (@WrapLinear.cylinder_wrapper_linear_axial N T). Qed.
+
+End AnyField.
+
+Print Assumptions C05_wrapper_linear_cuboid.
+Print Assumptions C05_wrapper_linear_sphere.
+Print Assumptions C05_wrapper_linear_triangle.
+Print Assumptions C05_wrapper_linear_tetrahedron.
+Print Assumptions C05_wrapper_linear_trimesh_row.
+Print Assumptions C05_wrapper_linear_segment_row.
+Print Assumptions C05_wrapper_linear_cylinder_axial_partial.
+
+(* ---- Cuboid, core and wrapper, over R: magnet_cuboid_Bfield assembles B from the TRANSLATED table
+   Gen/GenCuboid.cuboid_contrib of contributions [-]pol_k * term_i * qsigns[k][j] / (4 pi); linear in pol for
+   EVERY table, sign function q and term function t (so the hand-written octant flips / sign matrices of
+   Model/CuboidCore.v carry no weight), hence for the translated ones; and with it B, H, J, M of
+   BHJM_magnet_cuboid *)
+Theorem C05_cuboid_core_linear : forall (tbl : list (nat * nat * bool * nat)) (q : nat -> nat -> R) (t : nat -> R)
+  (a b : R) (u v : R * R * R) (j : nat),
+  CuboidCore.cub_comp tbl q t (CuboidLinear.lin3 a b u v) j
+  = (CuboidCore.cub_comp tbl q t u j * a + CuboidCore.cub_comp tbl q t v j * b)%R.
+Proof. exact CuboidLinear.cub_comp_linear. Qed.
+
+Theorem C05_cuboid_B_linear : forall (at2 : R -> R -> R) (obs dim : R * R * R) (a b : R) (u v : R * R * R),
+  CuboidCore.cuboid_B at2 obs dim (CuboidLinear.lin3 a b u v)
+  = CuboidLinear.lin3 a b (CuboidCore.cuboid_B at2 obs dim u) (CuboidCore.cuboid_B at2 obs dim v).
+Proof. exact CuboidLinear.cuboid_B_linear. Qed.
+
+Theorem C05_linear_in_excitation_cuboid : forall (T : @WrapModel.Tols CuboidCore.RWrap) (at2 : R -> R -> R) (mu0 : R)
+  (f : WrapModel.fld) (o d p1 p2 : R * R * R) (a b : R),
+  WrapModel.bhjm_cuboid (N := CuboidCore.RWrap) (CuboidCore.cuboid_core_row at2) mu0 f
+    (WrapLinear.cub (N := CuboidCore.RWrap) o d (CuboidLinear.lin3 a b p1 p2))
+  = CuboidLinear.lin3 a b
+      (WrapModel.bhjm_cuboid (N := CuboidCore.RWrap) (CuboidCore.cuboid_core_row at2) mu0 f (WrapLinear.cub (N := CuboidCore.RWrap) o d p1))
+      (WrapModel.bhjm_cuboid (N := CuboidCore.RWrap) (CuboidCore.cuboid_core_row at2) mu0 f (WrapLinear.cub (N := CuboidCore.RWrap) o d p2)).
+Proof. exact CuboidLinear.cuboid_BHJM_linear. Qed.
+
+Print Assumptions C05_cuboid_core_linear.
+Print Assumptions C05_cuboid_B_linear.
+Print Assumptions C05_linear_in_excitation_cuboid.
+
+Example C05_cuboid_table_nonvacuous :
+  forallb (fun kj : nat * nat => existsb (fun e : nat * nat * bool * nat =>
+     let '(k, j, _, _) := e in Nat.eqb k (fst kj) && Nat.eqb j (snd kj)) GenCuboid.cuboid_contrib)
+    [(0, 0); (0, 1); (0, 2); (1, 0); (1, 1); (1, 2); (2, 0); (2, 1); (2, 2)]%nat = true.
+Proof. exact CuboidLinear.cuboid_contrib_full. Qed.
+Print Assumptions C05_cuboid_table_nonvacuous.
 
 Example C05_linear_nonvacuous : CoreModel.dipole_BH NumR CoreModel.FH 1 (1, 0, 0) (0, 0, 1) <> (0, 0, 0).
 Proof. exact linear_nonvacuous. Qed.
